@@ -382,7 +382,15 @@ func (w *World) open(label string) {
 	var st *gkvlite.Store
 	var err error
 	if w.NoFile {
-		st, err = gkvlite.NewStoreEx(nil, w.callbacks())
+		// "no file" is spelt either as nil or as a nil pointer of a file type
+		// (persistence switched off): both are memory-only stores
+		if Choose(2, ClassOp) == 1 {
+			var none *MemFile
+			w.Hist = append(w.Hist, "(typed-nil file)")
+			st, err = gkvlite.NewStoreEx(none, w.callbacks())
+		} else {
+			st, err = gkvlite.NewStoreEx(nil, w.callbacks())
+		}
 	} else {
 		if w.Mon.Lazy {
 			w.File.Log = w.File.Log[:0]
